@@ -109,6 +109,21 @@ def build_databases(root):
     env.add_resource({'lmf_version': '1.3', 'lexicons': [docs.maximal('1.3'), docs.second_lexicon('1.3')]})
     env.add_resource({'lmf_version': '1.0', 'lexicons': [docs.maximal('1.0', lid='mo')]})
     out['max'] = d
+    # DB 'inf': lexicon p:1 has three bare synsets; its hypernym structure comes from the expand lexicon q:1
+    # through ILIs, most of it as *INFERRED* synsets (all of which, like *ROOT*, have the same internal id):
+    # two lowest common hypernyms at different distances, both inferred
+    d = os.path.join(root, 'inf')
+    os.makedirs(d)
+    env.close_pool()
+    wn.config.data_directory = d
+    qedges = [(0, 2), (0, 3), (1, 2), (1, 6), (6, 3), (2, 4), (3, 4), (2, 7), (3, 7), (4, 5), (7, 5)]
+    qrels = {i: [mk.rel(f'q-ss{b}', 'hypernym') for a, b in qedges if a == i] for i in range(8)}
+    q = mk.lexicon('q', '1', 'en', synsets=[mk.synset(f'q-ss{i}', 'n', f'i{i + 20}', relations=qrels[i]) for i in range(8)],
+                   entries=[mk.entry(f'q-e{i}', f'q{i}', 'n', senses=[mk.sense(f'q-s{i}', f'q-ss{i}')]) for i in range(8)])
+    pl = mk.lexicon('p', '1', 'es', synsets=[mk.synset(f'p-ss{i}', 'n', f'i{i + 20}') for i in (0, 1, 5)],
+                    entries=[mk.entry(f'p-e{i}', f'p{i}', 'n', senses=[mk.sense(f'p-s{i}', f'p-ss{i}')]) for i in (0, 1, 5)])
+    env.add_resource(mk.resource([q, pl], '1.3'))
+    out['inf'] = d
     env.close_pool()
     return out
 
@@ -155,6 +170,21 @@ def items(dirs):
             add(f'tax:shortest_path({a},{b},{simr})', 'tax', lambda a=a, b=b, s=simr: (lambda w: tx.shortest_path(ss(w, a), ss(w, b), simulate_root=s))(W(lexicon='t:1')))
             add(f'sim:wup({a},{b},{simr})', 'tax', lambda a=a, b=b, s=simr: (lambda w: sim.wup(ss(w, a), ss(w, b), simulate_root=s))(W(lexicon='t:1')))
             add(f'sim:path+lch({a},{b},{simr})', 'tax', lambda a=a, b=b, s=simr: (lambda w: [sim.path(ss(w, a), ss(w, b), simulate_root=s), sim.lch(ss(w, a), ss(w, b), 5, simulate_root=s)])(W(lexicon='t:1')))
+    # --- the same calls where the shared hypernyms are inferred through an expand lexicon
+    for a in (0, 1, 5):
+        for b in (0, 1, 5):
+            for simr in (False, True):
+                def inf_item(a=a, b=b, s=simr):
+                    w = W(lexicon='p:1', expand='q:1')
+                    x, y = w.synset(f'p-ss{a}'), w.synset(f'p-ss{b}')
+                    r = [x.hypernym_paths(simulate_root=s)]
+                    for f in (tx.common_hypernyms, tx.lowest_common_hypernyms, tx.shortest_path, sim.wup, sim.path):
+                        try:
+                            r.append(f(x, y, simulate_root=s))
+                        except wn.Error as e:
+                            r.append(['wn.Error', str(e)])
+                    return r
+                add(f'inf:taxonomy+similarity({a},{b},{simr})', 'inf', inf_item)
     for i in (0, 1, 9):
         add(f'tax:hypernym_paths({i})', 'tax', lambda i=i: (lambda w: [ss(w, i).hypernym_paths(), ss(w, i).min_depth(), ss(w, i).max_depth()])(W(lexicon='t:1')))
     add('tax:roots/leaves/depth', 'tax', lambda: (lambda w: [tx.roots(w), tx.leaves(w), tx.taxonomy_depth(w, 'n'), tx.roots(w, pos='n')])(W(lexicon='t:1')))
